@@ -22,9 +22,9 @@ REP = '{"*", "/", "+", "=", "AND", "OR"}'
 SUB = '{"*", "+", "=", "AND", "OR"}'
 
 
-def cfg(k, maxspecial, ops, sub, nest="{1}"):
-    return ("SPECIFICATION Spec\nCONSTANTS\n  K = %d\n  MaxSpecial = %d\n  OpsUsed = %s\n  SubOps = %s\n  Nest = %s\n"
-            "INVARIANTS Agree Fold ReparseStable\nCHECK_DEADLOCK FALSE\n" % (k, maxspecial, ops, sub, nest))
+def cfg(k, maxspecial, ops, sub, nest="{1}", lits="{}"):
+    return ("SPECIFICATION Spec\nCONSTANTS\n  K = %d\n  MaxSpecial = %d\n  OpsUsed = %s\n  SubOps = %s\n  Nest = %s\n  Lits = %s\n"
+            "INVARIANTS Agree Fold ReparseStable\nCHECK_DEADLOCK FALSE\n" % (k, maxspecial, ops, sub, nest, lits))
 
 
 def run(ctx):
@@ -41,12 +41,16 @@ def run(ctx):
         parts.append(("plain3", cfg(3, 0, ALL, '{"*"}'), None, None))          # 7 239 chains, exhaustive
         parts.append(("forms2", cfg(2, 1, REP, SUB, "{1, 2}"), None, None))     # one special operand, k<=2, ( ) and (( ))
         parts.append(("forms3", cfg(3, 1, '{"*", "+", "AND"}', '{"*", "+", "OR"}', "{1, 3}"), None, None))
+        # literal operands, negative ones too ( -1 * -2 , a - -2 , a / -1 * b ), next to one signed / parenthesised operand
+        parts.append(("lits3", cfg(3, 0, '{"*", "/", "-", "+"}', '{"*"}', lits='{"-1", "-2", "2"}'), None, None))
+        parts.append(("lits2", cfg(2, 1, '{"*", "/", "-", "="}', '{"*", "+"}', lits='{"-1", "-2"}'), None, None))
         parts.append(("sim", cfg(6, 0, ALL, '{"*"}'), "num=100", 7))
     else:
         parts.append(("plain4", cfg(4, 0, ALL, '{"*"}'), None, None))          # 137 560 chains, exhaustive
         parts.append(("forms3", cfg(3, 1, REP, SUB, "{1, 2, 3}"), None, None))    # one special operand, k<=3, nesting <= 3
         parts.append(("forms2x2", cfg(2, 2, REP, '{"*", "+"}', "{1, 2}"), None, None))  # two special operands, k<=2
-        parts.append(("sim", cfg(8, 0, ALL, '{"*"}'), "num=1200", 9))
+        parts.append(("lits3", cfg(3, 1, REP + ' \\cup {"-", "%", "<"}', SUB, lits='{"-1", "-2", "2", "1", "0"}', nest="{1, 2}"), None, None))
+        parts.append(("sim", cfg(8, 0, ALL, '{"*"}', lits='{"-1", "2"}'), "num=1200", 9))
         parts.append(("simforms", cfg(5, 3, ALL, SUB, "{1, 2}"), "num=150", 6))
     for name, text, sim, depth in parts:
         cf, r = gen(ctx, text, name, simulate=sim, depth=depth)
